@@ -23,9 +23,9 @@ Definition oRes (r : res seq) : sx :=
 Definition run (s : sx) : sx :=
   let a := fun n => xnth n s in
   match xZ (a 0%nat) with
-  | 1 => (* quantize_to_step: t sps (codes) -> step, decoded t, decoded sps *)
-      let t := fdec (xZ (a 1%nat)) in let sps := fdec (xZ (a 2%nat)) in
-      L [I (q2s t sps); oFloat t; oFloat sps]
+  | 1 => (* quantize_to_step: (t...) sps (codes) -> (steps) decoded-sps (decoded-t...) *)
+      let ts := map fdec (xZs (a 1%nat)) in let sps := fdec (xZ (a 2%nat)) in
+      L [oZs (map (fun t => q2s t sps) ts); oFloat sps; L (map oFloat ts)]
   | 2 => (* t spq qpm -> quantize_to_step(t, steps_per_quarter_to_steps_per_second(spq, qpm)), sps *)
       let t := fdec (xZ (a 1%nat)) in
       let sps := sps_rel (xZ (a 2%nat)) (fdec (xZ (a 3%nat))) in
